@@ -66,6 +66,9 @@ class C10(Check):
             # earlier reset() calls inside the history (a monitor can be reset any number of times)
             resets = sorted(rng.sample(range(0, h + 1), min(h + 1, rng.choice([1, 1, 2])))) if rng.random() < 0.35 else []
             cases.append({'f': f, 'n': n, 'h': h, 'nv': nv, 'cols': cols, 'times': times, 'omit': omit, 'sub': sub, 'resets': resets, 'past': past})
+            if (past or (fml.ops(f) & (fml.TUN | fml.TBIN))) and rng.random() < 0.4:
+                # reset() before the first update and before pastify(): harmless (the fresh monitor is parsed and pastified)
+                cases.append(dict(cases[-1], reset_before_pastify=1, h=0, resets=[], omit=[], cols=[col[h:] for col in cols], times=times[h:], n=n - h, sub=False))
             if not past and (fml.ops(f) & (fml.TUN | fml.TBIN)) and rng.random() < 0.5:
                 # the sampling period is configured after the reset (before the first update of the fresh monitor): bounds are written in seconds,
                 # the history runs with the default period of 1 s, the continuation with 500 ms
@@ -83,6 +86,9 @@ class C10(Check):
             return {'subspecs': ['sub1 = ' + fml.to_text(kid) + ';'], 'spec': 'out = ' + text}
         if c.get('reperiod'):
             return {'spec': 'out = ' + fml.to_text(f, lambda b, e: '[%ds,%ds]' % (b, e))}
+        if c.get('reset_before_pastify'):
+            # bounds written in milliseconds: pastify() rewrites them in the default unit, which changes the printed names of the nodes
+            return {'spec': 'out = ' + fml.to_text(f, lambda b, e: '[%dms,%dms]' % (b * 1000, e * 1000))}
         return {'spec': 'out = ' + fml.to_text(f)}
 
     def impl_cases(self, c):
@@ -90,16 +96,18 @@ class C10(Check):
         h, n = c['h'], c['n']
         base = {'monitor': 'discrete-online', 'vars': fml.VARS[:c['nv']]}
         base.update(self._spec(c))
-        if c.get('past'):
+        if c.get('past') or c.get('reset_before_pastify'):
             base['pastify'] = True
         a = dict(base)
+        if c.get('reset_before_pastify'):
+            a['pastify'] = False
         hist, lo = [], 0
         for r in [x for x in c.get('resets', []) if x <= h]:
             hist += updates(c['f'], c['cols'], c['times'], lo, r) + [['reset']]
             lo = r
         hist += updates(c['f'], c['cols'], c['times'], lo, h)
         rp = [['set_period'] + c['reperiod']] if c.get('reperiod') else []
-        a['calls'] = hist + [['reset']] + rp + updates(c['f'], c['cols'], c['times'], h, n, om) + [['counter']]
+        a['calls'] = hist + [['reset']] + rp + ([['pastify']] if c.get('reset_before_pastify') else []) + updates(c['f'], c['cols'], c['times'], h, n, om) + [['counter']]
         b = dict(base)
         b['calls'] = rp + updates(c['f'], c['cols'], c['times'], h, n, om) + [['counter']]
         return [a, b]
@@ -129,20 +137,22 @@ class C10(Check):
         for i in (a, b):
             if i['setup']['status'] != 'ok':
                 return 'violation', dict(det, expected='specification parses', observed=i['setup'])
-        for r in a['calls']:
+        for k_, r in enumerate(a['calls']):
             if r['status'] != 'ok':
+                if c.get('reset_before_pastify') and k_ == 0 and r['status'] == 'rtamt':
+                    continue        # reset() of a specification that still has future operators is refused cleanly; the monitor must work once it is pastified
                 return 'violation', dict(det, expected='every call returns', observed=r)
         for r in b['calls']:
             if r['status'] != 'ok':
                 return 'dropped', None        # the fresh monitor itself fails: not a reset question
         nres = len([x for x in c.get('resets', []) if x <= h])
-        post = [r['value'] for r in a['calls'][h + nres + 1:]]
+        post = [r['value'] for r in a['calls'][h + nres + 1 + (1 if c.get('reset_before_pastify') else 0):]]
         fresh = [r['value'] for r in b['calls']]
         if c.get('reperiod'):
             det['sampling_period_set_after_reset'] = c['reperiod']
         if post != fresh:
             return 'violation', dict(det, expected={'fresh monitor (outputs..., counter)': fresh}, observed={'after reset': post})
-        if not c.get('omit') and not c.get('past') and not c.get('reperiod'):
+        if not c.get('omit') and not c.get('past') and not c.get('reperiod') and not c.get('reset_before_pastify'):
             mo = json.loads(json.dumps(expect_vals([fml.parse_val(x) for x in m1['ON']])))
             mf = json.loads(json.dumps(expect_vals([fml.parse_val(x) for x in m2['ON']])))
             if mo != mf:
@@ -155,10 +165,10 @@ class C10(Check):
         return c['h'] >= 1 and bool(fml.ops(c['f']) & {'evt', 'alwt', 'untilt', 'next', 'snext', 'prev', 'sprev', 'once', 'hist', 'since', 'oncet', 'histt', 'sincet', 'rise', 'fall'})
 
     def key(self, c):
-        return json.dumps([fml.to_sx(c['f']), c['cols'], c['h'], c.get('omit'), c.get('sub'), c.get('resets'), c.get('past'), c.get('reperiod')])
+        return json.dumps([fml.to_sx(c['f']), c['cols'], c['h'], c.get('omit'), c.get('sub'), c.get('resets'), c.get('past'), c.get('reperiod'), c.get('reset_before_pastify')])
 
     def features(self, c):
-        return Check.features(self, c) + (['pastified'] if c.get('past') else []) + (['sub-specification'] if c.get('sub') else []) + (['period_set_after_reset'] if c.get('reperiod') else [])
+        return Check.features(self, c) + (['pastified'] if c.get('past') else []) + (['sub-specification'] if c.get('sub') else []) + (['period_set_after_reset'] if c.get('reperiod') else []) + (['reset_before_pastify'] if c.get('reset_before_pastify') else [])
 
     def describe(self, c):
         return {'spec': self._spec(c), 'history': c['h'], 'continuation': c['n'] - c['h'], 'data': c['cols'], 'time': c['times'], 'omitted': c.get('omit')}
